@@ -143,6 +143,9 @@ type item struct {
 	src   string // the bytes that painted it (for messages)
 	note  string // interpreter remarks used for classification
 	alt   *region
+	// natively stroked items: the line width in canvas mm (parsed width x the scale of the
+	// user space, which must then be a similarity; 0 = not applicable)
+	widthMM float64
 	// knocksOutPrev: this item and the previous one are the stroke and the fill of one PDF
 	// fill-and-stroke operator painted with alpha < 1: they form a knockout group (ISO 32000-1
 	// 11.7.4.4), i.e. where the stroke paints, the fill of the same object does not show
